@@ -115,16 +115,22 @@ type vRecVerifier struct{}
 
 func (vRecVerifier) ValidateBlock(*types.Block) error { return nil }
 
-// under the engine reflective (de)serialisation is a seam: the last object saved under a key is
-// what loading that key yields
-var vRecSaved = map[string]*state.State{}
+// under the engine reflective (de)serialisation of State is a seam: State.Bytes() yields a ticket
+// naming a snapshot of the object, loading a key yields the snapshot its stored ticket names. Every
+// save the code under test performs — wherever it is — is therefore seen by a later load.
+var vRecObjs []*state.State
+
+func vRecStateBytes(s *state.State) []byte {
+	vRecObjs = append(vRecObjs, s.Copy())
+	return []byte{0x53, byte(len(vRecObjs))}
+}
 
 func vRecLoadState(db dbm.DB, key []byte) *state.State {
-	s, ok := vRecSaved[string(key)]
-	if !ok || db.Get(key) == nil {
+	b := db.Get(key)
+	if len(b) != 2 || b[0] != 0x53 || int(b[1]) < 1 || int(b[1]) > len(vRecObjs) {
 		return nil
 	}
-	return s.Copy()
+	return vRecObjs[int(b[1])-1].Copy()
 }
 
 var vRecBlocks = map[int64]*types.Block{}
@@ -164,7 +170,6 @@ func VerifHarness_C06_recover_decision() {
 	s1 = s1.Copy()
 	vRecInit(s1, stateDB)
 	s1.Save()
-	vRecSaved["stateKey"] = s1.Copy()
 
 	// ---- the commit path of block 2, cut after class `cls` ----
 	b2, p2 := mkBlock(2, A1, R1, id1)
@@ -177,7 +182,6 @@ func VerifHarness_C06_recover_decision() {
 	if cls >= 2 {
 		err := stCopy.ExecBlock(evsw, b2, p2.Header(), 0) // real: ends with SaveIntermediate
 		vAssert(err == nil, "exec-block-ok")
-		vRecSaved["stateIntermediateKey"] = stCopy.Copy()
 	}
 	if cls >= 3 {
 		err := stCopy.CommitStateUpdateMempool(evsw, b2, MockMempool{}, 0) // the application commits
@@ -185,7 +189,6 @@ func VerifHarness_C06_recover_decision() {
 	}
 	if cls >= 4 {
 		stCopy.Save()
-		vRecSaved["stateKey"] = stCopy.Copy()
 	}
 	executedBefore := ev.executed
 
@@ -201,6 +204,7 @@ func VerifHarness_C06_recover_decision() {
 	vAssert(err == nil, "recovery-reports-no-error")
 	fin := e.stateMachine
 	storeH := bs2.Height()
+	receiptsOK := true
 	// store, state and application agree on the height
 	vAssert(fin.LastBlockHeight == ev.appHeight, "state-and-app-at-same-height")
 	vAssert(fin.LastBlockHeight == storeH, "state-and-store-at-same-height")
@@ -208,7 +212,7 @@ func VerifHarness_C06_recover_decision() {
 	if fin.LastBlockHeight == 2 {
 		vReach("recovered-at-2")
 		// ... and the state is the one the uncrashed run produces
-		vAssert(bytes.Equal(fin.ReceiptsHash, R2), "recovered-receipts-hash-as-uncrashed")
+		receiptsOK = bytes.Equal(fin.ReceiptsHash, R2) // asserted last (an open, recorded finding ends the path)
 		vAssert(fin.LastBlockID.Equals(id2), "recovered-last-block-id-as-uncrashed")
 		// the application (restarted too) is asked to execute block 2 again exactly when it had not committed it
 		again := ev.executed - executedBefore
@@ -217,4 +221,21 @@ func VerifHarness_C06_recover_decision() {
 		vReach("recovered-at-1")
 		vAssert(cls == 0, "only-a-crash-before-any-write-stays-at-1")
 	}
+
+	// ---- the node is killed again right after recovery (repeated crashes): whatever recovery left on
+	// disk must itself be recoverable, to the same result ----
+	bs3 := blockchain.NewBlockStore(blockDB, &vRecDB{})
+	again := state.LoadState(stateDB)
+	vAssert(again != nil, "state-loads-on-second-restart")
+	again.SetBlockExecutable(vRecExec{})
+	again.SetBlockVerifier(vRecVerifier{})
+	e2 := &Angine{blockstore: bs3, stateMachine: again, eventSwitch: &evsw}
+	err2 := e2.RecoverFromCrash(ev.appHash, ev.appHeight) // a panic / exit is a finding
+	vReach("recovered-twice")
+	vAssert(err2 == nil, "second-recovery-reports-no-error")
+	fin2 := e2.stateMachine
+	vAssert(fin2.LastBlockHeight == ev.appHeight && fin2.LastBlockHeight == bs3.Height(), "second-recovery-heights-agree")
+	vAssert(bytes.Equal(fin2.AppHash, ev.appHash), "second-recovery-state-app-hash-is-the-apps")
+	vAssert(fin2.LastBlockHeight == fin.LastBlockHeight && fin2.LastBlockID.Equals(fin.LastBlockID), "second-recovery-same-result-as-first")
+	vAssert(receiptsOK, "recovered-receipts-hash-as-uncrashed")
 }
